@@ -287,6 +287,11 @@ func c01Cuts(rng *rand.Rand, variant string, b []byte, bounds []int) []int {
 				cuts = append(cuts, i+1)
 			}
 		}
+	case "blocks":
+		// writes of exactly 8192 bytes
+		for m := 8192; m < len(b); m += 8192 {
+			cuts = append(cuts, m)
+		}
 	case "8k":
 		for m := 8192; m-1 < len(b); m += 8192 {
 			cuts = append(cuts, m-1, m, m+1)
@@ -314,12 +319,12 @@ func c01Cuts(rng *rand.Rand, variant string, b []byte, bounds []int) []int {
 }
 
 func checkC01(r *verdict.Run) {
-	r.Rule = "sequences of well-formed commands (+ sentinel ECHO) are sent to a fresh emulator once command-by-command (reference) and again with the same bytes cut differently (pipeline, every byte, inside CRLF, inside length headers, around 8192, random, mid-command); " +
+	r.Rule = "sequences of well-formed commands (+ sentinel ECHO) are sent to a fresh emulator once command-by-command (reference) and again with the same bytes cut differently (pipeline, every byte, inside CRLF, inside length headers, around 8192, in writes of exactly 8192 bytes, random, mid-command; every other sequence is padded to a whole number of 8192-byte blocks); " +
 		"oracle: exactly one strictly parsed reply per command, same bytes as the reference (canonical tree for HGETALL/SMEMBERS), nothing after the sentinel; commands pipelined in several segments behind a blocking command (BLPOP/BRPOP/BLMOVE/BLMPOP, ended by a push or a timeout) must be answered like the command-by-command run; hostile byte strings must round-trip in every role; error replies must stay on one line. " +
 		"distinct = (variant, protocol, command, reply class) + (role, string class)"
 	nseq := tierPick(r, 24, 400)
 	maxLen := tierPick(r, 12, 40)
-	variants := []string{"pipeline", "byte", "crlf", "header", "8k", "random", "midcmd"}
+	variants := []string{"pipeline", "byte", "crlf", "header", "8k", "blocks", "random", "midcmd"}
 	pool := c01Pool(r.Tier == "thorough")
 	workers := 12
 	parallel(nseq, workers, func(shard int) {
@@ -334,6 +339,21 @@ func checkC01(r *verdict.Run) {
 		seq := c01GenSeq(rng, 3+rng.Intn(maxLen-2), pool)
 		proto := 2 + shard%2
 		nonce := fmt.Sprintf("sentinel-%d", shard)
+		if shard%2 == 1 {
+			// every other sequence is padded (in its sentinel) to a whole number of 8192-byte blocks: the last byte of
+			// the request then coincides with the end of a full read buffer
+			base := 0
+			for _, cmd := range seq.cmds {
+				base += len(resp.Cmd(cmd...))
+			}
+			for pad := 0; pad < 8192+16; pad++ {
+				cand := nonce + "-" + strings.Repeat("p", pad)
+				if (base+len(resp.Cmd("ECHO", cand)))%8192 == 0 {
+					nonce = cand
+					break
+				}
+			}
+		}
 		ref, _, fail := c01Run(r, c, proto, seq, nonce, "reference", nil, 0)
 		describe := func() []string {
 			out := []string{}
